@@ -588,5 +588,5 @@ def run(ctx):
     from .c02 import minfold, DM
     from .. import readonly, lints
     ctx.run_rules([lambda c: sweep_fill(c) and None, stencil, geometry, membership, insertion, neighborlist,
-                   lambda c: minfold(c, DM, 'dmag2_c', False), lambda c: readonly.rule(c, NL, floor=5) and None,
+                   lambda c: minfold(c, DM, 'dmag2_c', False), lambda c: readonly.rule(c, NL, floor=2) and None,
                    lambda c: lints.c_double(c, 'C-DOUBLE', NL, floor=18), buffer_types])
